@@ -78,8 +78,7 @@ func (r *LongLinesRule) Check(ctx *linter.Context) ([]linter.Violation, error) {
 		}
 
 		// Skip comment-only lines (optional - could be configurable)
-		trimmed := strings.TrimSpace(line)
-		if strings.HasPrefix(trimmed, "--") || strings.HasPrefix(trimmed, "/*") {
+		if commentOnlyLine(line) {
 			continue
 		}
 
@@ -98,6 +97,24 @@ func (r *LongLinesRule) Check(ctx *linter.Context) ([]linter.Violation, error) {
 	}
 
 	return violations, nil
+}
+
+// commentOnlyLine reports whether the line holds nothing but comments: a line
+// comment, or block comments that run to the end of the line. A line that opens with
+// a block comment and continues with SQL (/* note */ SELECT ...) is not one.
+func commentOnlyLine(line string) bool {
+	rest := strings.TrimSpace(line)
+	if !strings.HasPrefix(rest, "--") && !strings.HasPrefix(rest, "/*") {
+		return false
+	}
+	for strings.HasPrefix(rest, "/*") {
+		end := strings.Index(rest[2:], "*/")
+		if end < 0 {
+			return true // the comment does not end on this line
+		}
+		rest = strings.TrimSpace(rest[2+end+2:])
+	}
+	return rest == "" || strings.HasPrefix(rest, "--")
 }
 
 // Fix is not supported for this rule as it requires semantic understanding.
